@@ -77,6 +77,22 @@ CHECKS = {
         "Trusted: the 40-line full-copy reference; CPython; value-renaming symmetry (the code never inspects values). Not covered: histories longer than the bound ('longer random ones').",
         "5/C09",
     ),
+    "C10": (
+        "model_checking", "texts",
+        "exhaustive enumeration of grammar texts (all token sequences up to K tokens, all rule headers, all layouts of accepted bodies) against pest's meta-grammar executed by the reference PEG model",
+        "The oracle is tests/grammars/meta.pest itself, loaded by a bootstrap parser and executed by mc/refpeg.py ('pest's meta-grammar under pest's semantics'); the bootstrap is discharged by a fixpoint check (the meta-grammar accepts its own text and denotes what the bootstrap read) and by agreement on all bundled grammars. "
+        "Every text is accepted by from_grammar iff the oracle accepts it, and when both accept, names, modifiers, docs and the expression structure (precedence, prefix/postfix chains, bounds, tags, slices, decoded literals) must equal the structure read off the meta-grammar's parse tree.",
+        "Trusted: refpeg's execution of meta.pest; the adapter from Expression objects to the harness AST (a refactor that renames fields gives HARNESS-ERROR, not VIOLATION). Not covered: bodies longer than K tokens except the ~250 hand-picked deeper texts and the bundled files.",
+        "5/C10",
+    ),
+    "C11": (
+        "fault_enumeration", "texts",
+        "exhaustive fault enumeration: every short string over the grammar alphabet, every short token soup, every truncation / single-character fault of every bundled grammar, every escape form; outcome-type oracle",
+        "Each text is loaded with and without the default optimizer; the only admissible outcomes are a Parser or a PestGrammarError whose str() renders and whose line:column exists in the text. "
+        "Texts that can exhaust memory (astronomical repetition counts) run in a forked child with an address-space limit and a hard timeout.",
+        "Trusted: CPython. Termination is checked up to a 20 s watchdog. One open known finding (huge repetition counts unrolled by the optimizer).",
+        "5/C11",
+    ),
     "C13": (
         "exploration", "engine",
         "stateless exhaustive enumeration of rejected executions (C01 families, alphabet + newline + non-ASCII, every start position, 4 modes); invariants on the exception",
